@@ -30,6 +30,9 @@ pub fn all() -> Vec<Prop> {
         Prop { id: "C09", gen: gen_c09, monitor: mon::c09, bound_quick: Some(2), bound_thorough: Some(3), max_execs_quick: 20_000, max_execs_thorough: 400_000, features: "" },
         Prop { id: "C10", gen: gen_c10, monitor: mon::c10, bound_quick: None, bound_thorough: None, max_execs_quick: 20_000, max_execs_thorough: 400_000, features: "" },
         Prop { id: "C11", gen: gen_c11, monitor: mon::c11, bound_quick: Some(2), bound_thorough: Some(3), max_execs_quick: 20_000, max_execs_thorough: 400_000, features: "" },
+        Prop { id: "C14", gen: gen_c14, monitor: mon::c14, bound_quick: Some(3), bound_thorough: None, max_execs_quick: 20_000, max_execs_thorough: 400_000, features: "f_deadlock" },
+        Prop { id: "C15", gen: gen_c15, monitor: mon::c15, bound_quick: Some(3), bound_thorough: None, max_execs_quick: 20_000, max_execs_thorough: 400_000, features: "f_deadlock" },
+        Prop { id: "C20", gen: gen_c20, monitor: mon::c20, bound_quick: Some(2), bound_thorough: Some(3), max_execs_quick: 5_000, max_execs_thorough: 100_000, features: "f_metrics" },
         Prop { id: "C13", gen: gen_c13, monitor: mon::c13, bound_quick: Some(2), bound_thorough: Some(3), max_execs_quick: 20_000, max_execs_thorough: 400_000, features: "f_testutils" },
     ]
 }
@@ -1231,4 +1234,528 @@ fn gen_c13(thorough: bool) -> Vec<Scenario> {
         }
     }
     with_fused(out)
+}
+
+// ------------------------------------------------------------------ C14 / C15: ask cycles
+
+#[derive(Clone, Copy, Debug, PartialEq)]
+enum EdgeHook {
+    Handler,
+    OnStart,
+    OnRun,
+    OnStop,
+}
+
+#[derive(Clone, Copy, Debug, PartialEq)]
+enum EdgeKind {
+    Ask,
+    AskTO,
+    Erased,
+}
+
+/// steps that make the running hook ask actor `to` with message `m`
+fn ask_steps(kind: EdgeKind, to: usize, m: MsgSpec) -> Vec<Step> {
+    let reg = REG_BASE + to as u8;
+    match kind {
+        EdgeKind::Ask => vec![send(SendKind::Ask, reg, m)],
+        EdgeKind::AskTO => vec![send(SendKind::AskTO(30), reg, m)],
+        EdgeKind::Erased => vec![
+            Step::CloneH { from: reg, to: 5 },
+            Step::Erase { from: 5, to: 6, kind: EraseKind::Ask, owned: true },
+            send(SendKind::Ask, 6, m),
+            Step::DropH(6),
+        ],
+    }
+}
+
+/// n actors in a ring; actor i asks actor i+1 from the given hook; every edge has its own trigger,
+/// so the schedule decides which asks overlap (a cycle exists only when all of them are in flight).
+fn ring(n: usize, hooks: &[EdgeHook], kinds: &[EdgeKind], name: String) -> Scenario {
+    let mut ids = Ids(0);
+    let mut actors = Vec::new();
+    let mut clients = Vec::new();
+    for i in 0..n {
+        let to = (i + 1) % n;
+        let mut plain = MsgSpec::quick(ids.next());
+        plain.entry_yield = false;
+        let asking = ask_steps(kinds[i], to, plain);
+        let mut a = ActorSpec::plain(2);
+        match hooks[i] {
+            EdgeHook::Handler => {
+                let go = MsgSpec::m1(ids.next()).steps(asking);
+                clients.push(Program::new(vec![(0, i)], vec![send(SendKind::Tell, 0, go)]));
+            }
+            EdgeHook::OnStart => {
+                a.on_start = HookSpec { entry_yield: true, steps: asking, out: Outcome::Ok, free: false };
+            }
+            EdgeHook::OnRun => {
+                a.on_run = vec![HookSpec { entry_yield: false, steps: [vec![Step::Yield], asking].concat(), out: Outcome::OkFalse, free: false }];
+            }
+            EdgeHook::OnStop => {
+                a.on_stop = HookSpec { entry_yield: true, steps: asking, out: Outcome::Ok, free: false };
+                clients.push(Program::new(vec![(0, i)], vec![Step::Stop(0)]));
+            }
+        }
+        actors.push(a);
+    }
+    let mut s = scn(name, actors, clients, &["quiet"]);
+    s.registry = true;
+    s
+}
+
+/// one trigger; the asks are nested: A0's handler asks A1, whose handler asks A2, ... whose handler asks A0
+fn chain(n: usize, kinds: &[EdgeKind], name: String) -> Scenario {
+    let mut ids = Ids(0);
+    // innermost first: the ask that closes the cycle carries a plain message
+    let mut inner = MsgSpec::m1(ids.next());
+    for i in (0..n).rev() {
+        let to = (i + 1) % n;
+        let steps = ask_steps(kinds[i], to, inner);
+        inner = MsgSpec::m1(ids.next()).steps(steps);
+    }
+    let actors = (0..n).map(|_| ActorSpec::plain(2)).collect();
+    let c0 = Program::new(vec![(0, 0)], vec![send(SendKind::Tell, 0, inner)]);
+    let c1 = Program::new(vec![(0, 0)], vec![send(SendKind::Ask, 0, MsgSpec::m1(ids.next()))]);
+    let mut s = scn(name, actors, vec![c0, c1], &["quiet"]);
+    s.registry = true;
+    s
+}
+
+fn gen_c14(thorough: bool) -> Vec<Scenario> {
+    let mut out = Vec::new();
+    let mut n = 0;
+    let hooks = [EdgeHook::Handler, EdgeHook::OnStart, EdgeHook::OnRun, EdgeHook::OnStop];
+    let kinds = [EdgeKind::Ask, EdgeKind::AskTO, EdgeKind::Erased];
+    let maxn = if thorough { 4 } else { 3 };
+    for len in 1..=maxn {
+        // every assignment of edges to hooks (plain ask)
+        for hs in seqs(&hooks, len).into_iter().filter(|h| h.len() == len) {
+            if len == 4 && hs.iter().filter(|h| **h != EdgeHook::Handler).count() > 1 {
+                continue;
+            }
+            n += 1;
+            out.push(ring(len, &hs, &vec![EdgeKind::Ask; len], format!("c14-{n}-ring{len}-{hs:?}")));
+        }
+        // every assignment of ask flavours (handler edges), ring and chain
+        for ks in seqs(&kinds, len).into_iter().filter(|k| k.len() == len) {
+            if len == 4 && ks.iter().filter(|k| **k != EdgeKind::Ask).count() > 1 {
+                continue;
+            }
+            n += 1;
+            out.push(ring(len, &vec![EdgeHook::Handler; len], &ks, format!("c14-{n}-ring{len}-{ks:?}")));
+            n += 1;
+            out.push(chain(len, &ks, format!("c14-{n}-chain{len}-{ks:?}")));
+        }
+    }
+    out
+}
+
+fn gen_c15(thorough: bool) -> Vec<Scenario> {
+    // the rings: in most schedules the asks do not all overlap, and then nobody may panic
+    let mut out = gen_c14(thorough);
+    for s in out.iter_mut() {
+        s.name = s.name.replace("c14-", "c15-");
+    }
+    let mut n = out.len();
+    // acyclic in time, cyclic in topology: A asks B; B's *next* message makes B ask A
+    #[derive(Clone, Copy, Debug)]
+    enum End {
+        Reply,
+        Timeout,
+        CalleeKilled,
+        CalleePanics,
+        OnRunCancelled,
+    }
+    for end in [End::Reply, End::Timeout, End::CalleeKilled, End::CalleePanics, End::OnRunCancelled] {
+        for three in [false, true] {
+            for erased in [false, true] {
+                if three && erased && !thorough {
+                    continue;
+                }
+                let mut ids = Ids(0);
+                let na = if three { 3 } else { 2 };
+                let kind = if erased { EdgeKind::Erased } else { EdgeKind::Ask };
+                // ping: A0 -> A1
+                let mut ping = MsgSpec::quick(ids.next());
+                match end {
+                    End::Reply => {}
+                    End::Timeout => ping = ping.steps(vec![Step::Sleep(20)]),
+                    End::CalleeKilled => ping = ping.steps(vec![Step::Yield, Step::Kill(SELF_SLOT), Step::Yield]),
+                    End::CalleePanics => ping = ping.steps(vec![Step::Yield]).out(Outcome::Panic(5)),
+                    End::OnRunCancelled => ping = ping.steps(vec![Step::Yield, Step::Yield]),
+                }
+                let a0_asks = match end {
+                    End::Timeout => vec![send(SendKind::AskTO(10), REG_BASE + 1, ping)],
+                    _ => ask_steps(kind, 1, ping),
+                };
+                let mut actors: Vec<ActorSpec> = (0..na).map(|_| ActorSpec::plain(3)).collect();
+                let mut clients = Vec::new();
+                if let End::OnRunCancelled = end {
+                    actors[0].on_run = vec![HookSpec { entry_yield: false, steps: [vec![Step::Yield], a0_asks].concat(), out: Outcome::OkFalse, free: false }];
+                    // a message to A0 cancels the on_run that is waiting for the reply
+                    clients.push(Program::new(vec![(0, 0)], vec![send(SendKind::Tell, 0, MsgSpec::m1(ids.next()))]));
+                } else {
+                    let go = MsgSpec::m1(ids.next()).steps(a0_asks);
+                    clients.push(Program::new(vec![(0, 0)], vec![send(SendKind::Tell, 0, go)]));
+                }
+                // B's next message: ask back towards A0 (directly, or through a third actor)
+                let echo = MsgSpec::quick(ids.next());
+                let back = if three {
+                    let fwd = MsgSpec::m1(ids.next()).steps(ask_steps(EdgeKind::Ask, 0, echo));
+                    MsgSpec::m1(ids.next()).steps(ask_steps(kind, 2, fwd))
+                } else {
+                    MsgSpec::m1(ids.next()).steps(ask_steps(kind, 0, echo))
+                };
+                let asker_actor = if matches!(end, End::CalleeKilled | End::CalleePanics) && three { 2 } else { 1 };
+                let _ = asker_actor;
+                clients.push(Program::new(vec![(0, 1)], vec![send(SendKind::Tell, 0, back)]));
+                // a non-actor caller asking into the topology
+                clients.push(Program::new(vec![(0, 0), (1, 1)], vec![send(SendKind::Ask, 1, MsgSpec::quick(ids.next())), send(SendKind::Ask, 0, MsgSpec::quick(ids.next()))]));
+                n += 1;
+                let mut s = scn(format!("c15-{n}-acyclic-{end:?}-three{three}-erased{erased}"), actors, clients, &["quiet"]);
+                s.registry = true;
+                out.push(s);
+            }
+        }
+    }
+    out
+}
+
+// ------------------------------------------------------------------ C20: metrics
+
+fn gen_c20(thorough: bool) -> Vec<Scenario> {
+    let mut out = Vec::new();
+    let mut n = 0;
+    #[derive(Clone, Copy, Debug, PartialEq)]
+    enum Hk {
+        Fast,
+        Busy,
+        Panic,
+        Yielding,
+    }
+    #[derive(Clone, Copy, Debug)]
+    enum Cause {
+        Stop,
+        Kill,
+        Drop,
+        HandlerPanic,
+        RunErr,
+    }
+    let hk = [Hk::Fast, Hk::Busy, Hk::Yielding];
+    let maxlen = if thorough { 4 } else { 3 };
+    for seq in seqs(&hk, maxlen) {
+        for cause in [Cause::Stop, Cause::Kill, Cause::Drop, Cause::HandlerPanic, Cause::RunErr] {
+            for readers in [1usize, 2] {
+                if !thorough && readers == 2 && seq.len() > 2 {
+                    continue;
+                }
+                let mut ids = Ids(0);
+                let mut a = ActorSpec::plain(2);
+                if let Cause::RunErr = cause {
+                    a.on_run = vec![
+                        HookSpec { entry_yield: false, steps: vec![Step::Sleep(10)], out: Outcome::OkTrue, free: false },
+                        HookSpec { entry_yield: false, steps: vec![Step::Yield], out: Outcome::Err(4), free: false },
+                    ];
+                }
+                let mut steps = Vec::new();
+                let mut seqv: Vec<Hk> = seq.clone();
+                if let Cause::HandlerPanic = cause {
+                    seqv.push(Hk::Panic);
+                }
+                for (i, h) in seqv.iter().enumerate() {
+                    let body = match h {
+                        Hk::Fast | Hk::Panic => vec![],
+                        Hk::Busy => vec![Step::Busy(2)],
+                        Hk::Yielding => vec![Step::Yield],
+                    };
+                    let mut m = MsgSpec::m1(ids.next()).steps(body);
+                    m.entry_yield = *h == Hk::Yielding;
+                    if *h == Hk::Panic {
+                        m = m.out(Outcome::Panic(3));
+                    }
+                    steps.push(send(if i % 2 == 0 { SendKind::Tell } else { SendKind::Ask }, 0, m));
+                }
+                steps.push(Step::Downgrade { from: 0, to: 1 });
+                steps.push(match cause {
+                    Cause::Stop => Step::Stop(0),
+                    Cause::Kill => Step::Kill(0),
+                    _ => Step::Metrics(0),
+                });
+                steps.push(Step::Sleep(20));
+                steps.push(Step::Metrics(0));
+                steps.push(Step::Metrics(1));
+                let c0 = Program::new(vec![(0, 0)], steps);
+                let mut clients = vec![c0];
+                for r in 0..readers {
+                    let via_weak = r == 1;
+                    let mut rs = vec![];
+                    if via_weak {
+                        rs.push(Step::Downgrade { from: 0, to: 1 });
+                    }
+                    let slot = if via_weak { 1 } else { 0 };
+                    rs.extend([Step::Metrics(slot), Step::Metrics(slot), Step::Sleep(30), Step::Metrics(slot)]);
+                    if let Cause::Drop = cause {
+                        rs.push(Step::DropH(0));
+                    }
+                    clients.push(Program::new(vec![(0, 0)], rs));
+                }
+                n += 1;
+                out.push(scn(format!("c20-{n}-{seq:?}-{cause:?}-r{readers}"), vec![a], clients, &["metrics_build"]));
+            }
+        }
+    }
+    out
+}
+
+// ------------------------------------------------------------------ C16: erased handles (differential)
+
+/// What an observer can see, with everything that only names the route removed.
+pub fn project_c16(tr: &[Ev]) -> Vec<String> {
+    let mut out = Vec::new();
+    let mut hidden_ops: std::collections::HashSet<u32> = Default::default();
+    for e in tr {
+        match &e.k {
+            EvK::Slot { .. } | EvK::Log { .. } | EvK::Quiet { .. } | EvK::Graph { .. } | EvK::DlCount { .. } | EvK::Harvest { .. } => {}
+            EvK::OpStart { op, k, target, msg, slot, .. } => {
+                // handle bookkeeping, and the upgrade that is part of an erasing prelude (slots >= 30)
+                if matches!(k, OpK::Erase | OpK::CloneBoxed | OpK::CloneH | OpK::DropH | OpK::Downgrade) || (*k == OpK::Upgrade && *slot >= 30) {
+                    hidden_ops.insert(*op);
+                } else {
+                    out.push(format!("t={} o={:?} start {:?} target={:?} msg={:?}", e.t, e.owner, k, target, msg));
+                }
+            }
+            EvK::OpEnd { op, res } => {
+                if !hidden_ops.contains(op) {
+                    out.push(format!("t={} o={:?} end {:?}", e.t, e.owner, res));
+                }
+            }
+            other => out.push(format!("t={} o={:?} {:?}", e.t, e.owner, other)),
+        }
+    }
+    out
+}
+
+#[derive(Clone, Copy, Debug, PartialEq)]
+enum Style {
+    Owned,
+    Borrowed,
+    CloneBoxed,
+    WeakRoundTrip,
+}
+
+/// Route every operation of a direct program (which uses slot 0 for its strong handle, slot 1 for a weak one,
+/// slot 2 for an upgraded one) through type-erased wrappers.
+fn erase_program(p: &Program, style: Style) -> Program {
+    let uses = |f: &dyn Fn(&Step) -> bool| p.steps.iter().any(|s| f(s) || matches!(s, Step::SendThen { other, .. } if f(other)));
+    let is_tell = |s: &Step| matches!(s, Step::Send { kind: SendKind::Tell | SendKind::TellTO(_), slot: 0, .. } | Step::SendThen { kind: SendKind::Tell, slot: 0, .. });
+    let is_ask = |s: &Step| matches!(s, Step::Send { kind: SendKind::Ask | SendKind::AskTO(_), slot: 0, .. } | Step::SendThen { kind: SendKind::Ask, slot: 0, .. });
+    let need_tell = uses(&is_tell);
+    let need_ask = uses(&is_ask);
+    let (t, a, c): (u8, u8, u8) = (10, 11, 12);
+    let mut pre: Vec<Step> = Vec::new();
+    let mut boxes: Vec<(u8, EraseKind)> = Vec::new();
+    if need_tell {
+        boxes.push((t, EraseKind::Tell));
+    }
+    if need_ask {
+        boxes.push((a, EraseKind::Ask));
+    }
+    if boxes.is_empty() {
+        boxes.push((c, EraseKind::Ctl));
+    }
+    for (i, (slot, kind)) in boxes.iter().enumerate() {
+        let last = i + 1 == boxes.len();
+        let owned = style == Style::Owned && last;
+        pre.push(Step::Erase { from: 0, to: *slot, kind: *kind, owned });
+    }
+    if style != Style::Owned {
+        pre.push(Step::DropH(0));
+    }
+    let mut live: Vec<u8> = boxes.iter().map(|b| b.0).collect();
+    match style {
+        Style::CloneBoxed => {
+            for s in live.iter_mut() {
+                pre.push(Step::CloneBoxed { from: *s, to: *s + 10 });
+                pre.push(Step::DropH(*s));
+                *s += 10;
+            }
+        }
+        Style::WeakRoundTrip => {
+            for s in live.iter_mut() {
+                pre.push(Step::Downgrade { from: *s, to: *s + 20 });
+                pre.push(Step::Upgrade { from: *s + 20, to: *s + 10 });
+                pre.push(Step::DropH(*s));
+                pre.push(Step::DropH(*s + 20));
+                *s += 10;
+            }
+        }
+        _ => {}
+    }
+    let off = if matches!(style, Style::CloneBoxed | Style::WeakRoundTrip) { 10 } else { 0 };
+    let tslot = t + off;
+    let aslot = a + off;
+    let cslot = live[0];
+    let map = |s: &Step| -> Vec<Step> {
+        match s {
+            Step::Send { kind, slot: 0, msg } => vec![Step::Send { kind: *kind, slot: if kind.is_ask() { aslot } else { tslot }, msg: msg.clone() }],
+            Step::SendThen { kind, slot: 0, msg, other, drop_first } => {
+                let o2 = match other.as_ref() {
+                    Step::Send { kind: k2, slot: 0, msg: m2 } => Step::Send { kind: *k2, slot: if k2.is_ask() { aslot } else { tslot }, msg: m2.clone() },
+                    x => x.clone(),
+                };
+                vec![Step::SendThen { kind: *kind, slot: if kind.is_ask() { aslot } else { tslot }, msg: msg.clone(), other: Box::new(o2), drop_first: *drop_first }]
+            }
+            Step::Stop(0) => vec![Step::Stop(cslot)],
+            Step::Kill(0) => vec![Step::Kill(cslot)],
+            Step::IsAlive(0) => vec![Step::IsAlive(cslot)],
+            Step::Ident(0) => vec![Step::Ident(cslot)],
+            Step::Downgrade { from: 0, to } => vec![Step::Downgrade { from: cslot, to: *to }],
+            Step::DropH(0) => {
+                let mut v = Vec::new();
+                for (i, s) in live.iter().enumerate() {
+                    if i > 0 {
+                        v.push(Step::Fuse);
+                    }
+                    v.push(Step::DropH(*s));
+                }
+                v
+            }
+            other => vec![other.clone()],
+        }
+    };
+    let mut steps: Vec<Step> = Vec::new();
+    for s in pre {
+        steps.push(s);
+        steps.push(Step::Fuse);
+    }
+    for s in &p.steps {
+        steps.extend(map(s));
+    }
+    Program { slots: p.slots.clone(), steps, auto_yield: p.auto_yield, free: p.free }
+}
+
+pub fn gen_c16(thorough: bool) -> Vec<(Scenario, Vec<Scenario>)> {
+    let mut groups = Vec::new();
+    let mut n = 0;
+    #[derive(Clone, Copy, Debug, PartialEq)]
+    enum E {
+        Tell,
+        Ask,
+        TellTO,
+        AskTO,
+        Stop,
+        Kill,
+        IsAlive,
+        Ident,
+        Drop,
+    }
+    let alpha = [E::Tell, E::Ask, E::TellTO, E::AskTO, E::Stop, E::Kill, E::IsAlive, E::Drop];
+    let mut progs = seqs(&alpha, if thorough { 3 } else { 2 });
+    progs.retain(|p| match p.iter().position(|o| *o == E::Drop) {
+        Some(i) => i + 1 == p.len(),
+        None => true,
+    });
+    let styles = [Style::Owned, Style::Borrowed, Style::CloneBoxed, Style::WeakRoundTrip];
+    let mk = |p: &Vec<E>, slow: bool, ids: &mut Ids| -> Program {
+        let body = if slow { vec![Step::Sleep(20)] } else { vec![] };
+        let steps = p
+            .iter()
+            .map(|o| match o {
+                E::Tell => send(SendKind::Tell, 0, MsgSpec::m1(ids.next()).steps(body.clone())),
+                E::Ask => send(SendKind::Ask, 0, MsgSpec::m1(ids.next()).steps(body.clone())),
+                E::TellTO => send(SendKind::TellTO(10), 0, MsgSpec::m1(ids.next()).steps(body.clone())),
+                E::AskTO => send(SendKind::AskTO(10), 0, MsgSpec::m1(ids.next()).steps(body.clone())),
+                E::Stop => Step::Stop(0),
+                E::Kill => Step::Kill(0),
+                E::IsAlive => Step::IsAlive(0),
+                E::Ident => Step::Ident(0),
+                E::Drop => Step::DropH(0),
+            })
+            .collect();
+        Program::new(vec![(0, 0)], steps)
+    };
+    let mut push_group = |name: String, actor: ActorSpec, base: Vec<Program>, groups: &mut Vec<(Scenario, Vec<Scenario>)>| {
+        let b = scn(format!("{name}#direct"), vec![actor.clone()], base.clone(), &[]);
+        let mut vars = Vec::new();
+        for st in styles {
+            // erase the first client, then both
+            let v1: Vec<Program> = base.iter().enumerate().map(|(i, p)| if i == 0 { erase_program(p, st) } else { p.clone() }).collect();
+            vars.push(scn(format!("{name}#{st:?}-c0"), vec![actor.clone()], v1, &[]));
+            if base.len() > 1 {
+                let v2: Vec<Program> = base.iter().map(|p| erase_program(p, st)).collect();
+                vars.push(scn(format!("{name}#{st:?}-all"), vec![actor.clone()], v2, &[]));
+            }
+        }
+        groups.push((b, vars));
+    };
+    for slow in [false, true] {
+        for (i, p1) in progs.iter().enumerate() {
+            for p2 in progs.iter().skip(i) {
+                if p1.len() + p2.len() > if thorough { 4 } else { 3 } {
+                    continue;
+                }
+                let has_to = p1.iter().chain(p2.iter()).any(|o| matches!(o, E::TellTO | E::AskTO));
+                if has_to != slow {
+                    continue;
+                }
+                let mut ids = Ids(0);
+                let base = vec![mk(p1, slow, &mut ids), mk(p2, slow, &mut ids)];
+                let mut a = ActorSpec::plain(1);
+                a.on_start = gated(Outcome::Ok);
+                a.on_stop = gated(Outcome::Ok);
+                n += 1;
+                push_group(format!("c16-{n}-{p1:?}|{p2:?}{}", if slow { "-slow" } else { "" }), a, base, &mut groups);
+            }
+        }
+    }
+    // weak handles around the end of the actor
+    for cause in 0..3 {
+        for keep in [true, false] {
+            let mut ids = Ids(0);
+            let c0 = Program::new(
+                vec![(0, 0)],
+                vec![
+                    Step::Downgrade { from: 0, to: 1 },
+                    send(SendKind::Tell, 0, MsgSpec::m1(ids.next())),
+                    match cause {
+                        0 => Step::Stop(0),
+                        1 => Step::Kill(0),
+                        _ => Step::IsAlive(0),
+                    },
+                    Step::Upgrade { from: 1, to: 2 },
+                    Step::IsAlive(1),
+                    Step::Sleep(10),
+                    Step::Upgrade { from: 1, to: 3 },
+                    Step::IsAlive(1),
+                    Step::IsAlive(3),
+                    Step::Ident(3),
+                    Step::Stop(3),
+                ],
+            );
+            let c1 = Program::new(vec![(0, 0)], if keep { vec![Step::IsAlive(0)] } else { vec![Step::DropH(0)] });
+            let mut a = ActorSpec::plain(2);
+            a.on_stop = gated(Outcome::Ok);
+            n += 1;
+            push_group(format!("c16-{n}-weak-cause{cause}-keep{keep}"), a, vec![c0, c1], &mut groups);
+        }
+    }
+    // futures created but not awaited at once
+    for drop_first in [false, true] {
+        for first in [SendKind::Tell, SendKind::Ask] {
+            let mut ids = Ids(0);
+            let m1 = MsgSpec::m1(ids.next());
+            let m2 = MsgSpec::m1(ids.next());
+            let c0 = Program::new(
+                vec![(0, 0)],
+                vec![
+                    Step::SendThen { kind: first, slot: 0, msg: m1, other: Box::new(send(SendKind::Tell, 0, m2)), drop_first },
+                    send(SendKind::Ask, 0, MsgSpec::m1(ids.next())),
+                ],
+            );
+            let c1 = Program::new(vec![(0, 0)], vec![send(SendKind::Tell, 0, MsgSpec::m1(ids.next()))]);
+            n += 1;
+            push_group(format!("c16-{n}-lazy-{first:?}-drop{drop_first}"), ActorSpec::plain(2), vec![c0, c1], &mut groups);
+        }
+    }
+    groups
 }
